@@ -138,4 +138,24 @@ TEXTS.update({
         'ref': 'DESIGN.md 4 C02; 3 TAB2 TAB4 TAB5a TAB6 TAB7 LST1',
     },
 })
+TEXTS.update({
+    'C04': {
+        'level': "Decides only the structural share of the round-trip property: printer escapes are a subset of what the parser decodes to the same bytes, count and emit passes agree for every byte value, every write is covered by a capacity request, and the offset bookkeeping makes the two growth strategies of ensure() preserve the same bytes. The numeric round trip (including the DBL_MAX defect named in the property) is explicitly not decided.",
+        'note': COMMON_NOTE + " Not decided: numbers, fixed point as a value.",
+        'technique': 'static analysis: two-sided table extraction and per-byte-value agreement; path enumeration with linear symbolic state for write/offset accounting',
+        'ref': 'DESIGN.md 4 C04; 3 TAB5b TAB5c OUT1 OUT3',
+    },
+    'C05': {
+        'level': "Decides that all print variants funnel into one printer and differ only in buffer set-up, that format influences whitespace stores and lengths only, that the kind switch is exhaustive and masked, that control bytes/quote/backslash are escaped, that the locale decimal point is normalised and that the literals are the JSON ones. Acceptance by an independent strict parser is not decided.",
+        'note': COMMON_NOTE + " Not decided: non-finite -> null, integer formatting, strictness as a language property.",
+        'technique': 'static analysis: call-graph funnel check, control-dependence census on the format flag, table extraction',
+        'ref': 'DESIGN.md 4 C05; 3 TAB2 TAB15 TAB3 TAB5b TAB16',
+    },
+    'C09': {
+        'level': "For every ensure(p, N) site and every assignment of the boolean atoms, the bytes stored through the granted pointer are at most N (path enumeration with linear symbolic state), every output store goes through such a grant, and ensure grants N+1 bytes inside [0, length) or refuses, with the noalloc gate dominating growth. Exhaustive over sites and paths of the printing functions, where tests sample a few trees and sizes.",
+        'note': COMMON_NOTE + " Symbols (depth, output_length, strlen) are treated as non-negative integers; the escaping loop's byte count rests on TAB5b.",
+        'technique': 'static analysis: symbolic path enumeration with linear expressions over the CFG, loop summaries, dominance checks on ensure()',
+        'ref': 'DESIGN.md 4 C09; 3 OUT1 OUT2 OUT4 BND4',
+    },
+})
 NOT_APPLICABLE = {}
